@@ -686,6 +686,19 @@ where
     }
 }
 
+#[cfg(feature = "verif-hooks")]
+impl<R, T, G, const N: usize, const D: usize> Device<R, T, G, N, D>
+where
+    R: radio::PhyRxTx + Timings,
+    T: radio::Timer,
+    G: RngCore,
+{
+    /// Read-only snapshot of the MAC configuration and channel plan.
+    pub fn verif_snapshot(&self) -> crate::verif::Snapshot {
+        self.mac.verif_snapshot()
+    }
+}
+
 /// Allows to fine-tune the beginning and end of the receive windows for a specific board and runtime.
 pub trait Timings {
     /// How many milliseconds before the RX window should the SPI transaction start?
